@@ -2,6 +2,7 @@ package sio
 
 import (
 	"reflect"
+	"slices"
 
 	"github.com/karagenc/socket.io-go/internal/sync"
 
@@ -301,11 +302,7 @@ func (e *handlerStore[T]) onSubEvent(handler T) {
 
 func (e *handlerStore[T]) offSubEvent(handler T) {
 	e.mu.Lock()
-	for i, sub := range e.subs {
-		if sub == handler {
-			e.subs = append(e.subs[:i], e.subs[i+1:]...)
-		}
-	}
+	e.subs = slices.DeleteFunc(e.subs, func(sub T) bool { return sub == handler })
 	e.mu.Unlock()
 }
 
@@ -331,25 +328,10 @@ func (e *handlerStore[T]) off(handler ...T) {
 		return
 	}
 
-	remove := func(slice []T, s int) []T {
-		return append(slice[:s], slice[s+1:]...)
-	}
+	remove := func(h T) bool { return slices.Contains(handler, h) }
 
-	for i, h := range e.funcs {
-		for _, _h := range handler {
-			if h == _h {
-				e.funcs = remove(e.funcs, i)
-			}
-		}
-	}
-
-	for i, h := range e.funcsOnce {
-		for _, _h := range handler {
-			if h == _h {
-				e.funcsOnce = remove(e.funcsOnce, i)
-			}
-		}
-	}
+	e.funcs = slices.DeleteFunc(e.funcs, remove)
+	e.funcsOnce = slices.DeleteFunc(e.funcsOnce, remove)
 }
 
 func (e *handlerStore[T]) offAll() {
@@ -415,21 +397,15 @@ func (e *eventHandlerStore) off(eventName string, handler ...reflect.Value) {
 		return
 	}
 
-	remove := func(slice []*eventHandler, s int) []*eventHandler {
-		return append(slice[:s], slice[s+1:]...)
+	remove := func(event *eventHandler) bool {
+		return slices.ContainsFunc(handler, func(h reflect.Value) bool {
+			return event.rv.Pointer() == h.Pointer()
+		})
 	}
 
 	events, ok := e.events[eventName]
 	if ok {
-		for i, event := range events {
-			for _, h := range handler {
-				ep := event.rv.Pointer()
-				hp := h.Pointer()
-				if ep == hp {
-					events = remove(events, i)
-				}
-			}
-		}
+		events = slices.DeleteFunc(events, remove)
 		if len(events) == 0 {
 			delete(e.events, eventName)
 		} else {
@@ -439,15 +415,7 @@ func (e *eventHandlerStore) off(eventName string, handler ...reflect.Value) {
 
 	eventsOnce, ok := e.eventsOnce[eventName]
 	if ok {
-		for i, event := range eventsOnce {
-			for _, h := range handler {
-				ep := event.rv.Pointer()
-				hp := h.Pointer()
-				if ep == hp {
-					eventsOnce = remove(eventsOnce, i)
-				}
-			}
-		}
+		eventsOnce = slices.DeleteFunc(eventsOnce, remove)
 		if len(eventsOnce) == 0 {
 			delete(e.eventsOnce, eventName)
 		} else {
